@@ -5,4 +5,5 @@ INVARIANT DuplicateRejected
 INVARIANT UnknownDropped
 INVARIANT ReactionFramesLegal
 INVARIANT Unregisters
+INVARIANT ReassemblyTransparent
 INVARIANT Emit
